@@ -159,8 +159,8 @@ type seqPending struct {
 const seqSettle = 3 * ms
 
 func seqCases(r *vkit.Report) {
-	trials := r.Scale(300, 1200)
-	r.Cases("seq", r.Scale(10, 12), 1, func(c *vkit.Case) {
+	trials := r.Scale(300, 1000)
+	r.Cases("seq", r.Scale(10, 10), 1, func(c *vkit.Case) {
 		rnd := c.Rand
 		h := &seqHook{}
 		xtime.VerifSetHook(h.fn)
